@@ -17,12 +17,14 @@ def replay(ob):
     if unit.startswith('pspace-weighting/'):
         cfg = ob.get('config') or {}
         kind, field, p = cfg.get('weighting'), cfg.get('field'), cfg.get('exponent')
-        base = odl.cn(3) if field == 'complex' else odl.rn(3)
+        base = odl.cn(3) if field == 'complex' else (odl.tensor_space(3, dtype=int) if field == 'int' else odl.rn(3))
         w = np.array([0.5, 2.0, 3.0])
         sp = odl.ProductSpace(base, 3, weighting=(w if kind == 'array' else 1.7), exponent=p)
         wv = w if kind == 'array' else np.full(3, 1.7)
 
         def rnd():
+            if field == 'int':
+                return sp.element([rng.integers(-4, 5, 3) for _ in range(3)])
             return sp.element([rng.standard_normal(3) + (1j * rng.standard_normal(3) if field == 'complex' else 0) for _ in range(3)])
         x, y = rnd(), rnd()
         problems = []
@@ -62,9 +64,15 @@ def replay(ob):
         return {'reproduced': bool(problems), 'detail': '; '.join(problems[:3]) or 'closed form holds natively'}
     if rp.get('kind') == 'discr':
         problems = []
+        spaces = []
         for nob in ((True, False), (False, True), True, (True, True)):
             for shape in ((4,), (3, 4)):
-                sp = odl.uniform_discr([0] * len(shape), [1] * len(shape), shape, nodes_on_bdry=[nob] * len(shape) if len(shape) > 1 else nob)
+                spaces.append((shape, odl.uniform_discr([0] * len(shape), [1] * len(shape), shape, nodes_on_bdry=[nob] * len(shape) if len(shape) > 1 else nob)))
+        # uniform grids whose outermost nodes are NOT on the boundary and whose margins are not half a cell (boundary fractions 1.5, 1.0 / 2.5 ...)
+        spaces.append(((3, 5), odl.uniform_discr_frompartition(odl.RectPartition(odl.IntervalProd([0, 0], [1, 2]), odl.uniform_grid([0.25, 0.5], [0.75, 1.5], (3, 5))))))
+        spaces.append(((4,), odl.uniform_discr_frompartition(odl.RectPartition(odl.IntervalProd(0, 2), odl.uniform_grid(0.5, 1.25, 4)))))
+        for shape, sp in spaces:
+            if True:
                 x = sp.element(rng.standard_normal(shape))
                 y = sp.element(rng.standard_normal(shape))
                 w = np.ones(shape)
